@@ -129,7 +129,7 @@ def generate(tier, rng):
   # counterpart stays on the default backend.  pmap with 3 devices runs in a subprocess.
   for j, kind in enumerate(KINDS):
     for backend in (['pmap', 'debug'] if tier == 'quick' else ['pmap', 'debug', 'pmap3']):
-      if tier == 'quick' and backend == 'debug' and j % 3:
+      if tier == 'quick' and ((backend == 'debug' and j != 2) or (backend == 'pmap' and kind in ('apfl_noise', 'mimelite_gen', 'fedprox'))):
         continue
       c = _case(rng, kind, [3, 9, 5, 0, 7])
       c['hp'] = _hp((2, None, 1, False) if kind == 'mime1' else (2, 1, None, False), rng.randint(0, 9))
@@ -148,7 +148,7 @@ def generate(tier, rng):
   CLIP = {'kind': 'clipsgd', 'lr': 0.25, 'clip': 0.125}
   for j, kind in enumerate(('fedprox0', 'hypcluster', 'apfl', 'fedprox', 'mimelite1', 'mime1')):
     base_hp = _hp((2, None, 1, False) if kind == 'mime1' else (2, 1, None, False), 3)
-    if kind in ('fedprox0', 'hypcluster', 'apfl', 'fedprox'):
+    if kind in ('fedprox0', 'hypcluster', 'apfl', 'fedprox') and (tier != 'quick' or j < 2):
       c = _case(rng, kind, [5, 2, 7])
       c['copt'], c['sopt'], c['hp'], c['reg'] = CLIP, dict(CLIP, lr=1.0), base_hp, 0.0
       yield c
@@ -166,6 +166,8 @@ def generate(tier, rng):
     if kind == 'fedprox':
       c['mu'] = 0.5 * 2.0 ** (2 * e)          # the penalty gradient mu*(w - w_s) scales like the data term
     yield c
+    if tier == 'quick' and kind in ('apfl', 'fedprox'):
+      continue
     c = _case(rng, kind, [4, 6, 0])
     c['noise'], c['hp'], c['poison'] = False, base_hp, ['1', 2]
     c['rounds'] = [[['0', 1], ['2', 2]], [['1', 3], ['0', 4]], [['0', 5]]]
